@@ -22,7 +22,11 @@ longer spellings and the right one matches.  `TimeTablesOK` is the fact about th
 trailing `Z` are read as that time in UTC — this needs the *failure* of five formats to be proved, through
 all the back-tracking alternatives of `%H`, `%M`, `%S`.
 
-ODL zone offsets, date-times, leap seconds and the PDS3 millisecond spelling are decided by the
+**Date-times** (`C14_datetime_decodes`, `C14_datetime_roundtrip_pvl`): `YYYY-MM-DDTHH:MM[:SS[.ffffff]]`.
+
+`C14_datetimeZ_decodes`, `C14_datetime_roundtrip_odl_utc`: the same with a trailing `Z` (UTC).
+
+ODL zone offsets, day-of-year dates, leap seconds and the PDS3 millisecond spelling are decided by the
 generator's independent reading of each spelling against the real decoders and the model
 (`vlib/props/c14.py`); their theorems are open.
 -/
@@ -110,6 +114,62 @@ theorem C14_time_roundtrip_odl_utc (c : EncCfg) (hk : c.kind = .odl) (hg : TimeT
       decodeDatetime c.d text = .ok (.time h mi s us (some 0)) := by
   refine ⟨encodeTimeBase h mi s us ++ [90], ?_, C14_timeZ_decodes c.d hg h mi s us hv hp⟩
   simp [encodeValue, encodeSimple, encodeTime, hk]
+
+theorem dtTables_ok : ∀ g ∈ [Gen.pvl, Gen.odl, Gen.pds, Gen.isis, Gen.omni], DtTablesOK g = true := by
+  decide
+
+/-- **C14, date-times read back**: `YYYY-MM-DDTHH:MM[:SS[.ffffff]]` is decoded to exactly the written
+    date and clock fields, in the dialect's default zone, by each decoder class.  The four date formats
+    stop short of the end of the text, the six time formats fail at the third digit of the year, and the
+    date-time formats are tried in the table's order: those that are too short leave text unconverted,
+    those with a `Z` fail at the character where they want it — through every way of splitting the month,
+    day, hour, minute and second digits — and the right one matches. -/
+theorem C14_datetime_decodes (dc : Dec) (hg : DtTablesOK dc.g = true) (y m d h mi s us : Nat)
+    (hd : ValidDate y m d) (hv : ValidTime h mi s us) (hp : dc.kind = .pds → us % 1000 = 0) :
+    decodeDatetime dc (dateT y m d (encodeTimeBase h mi s us)) =
+      .ok (.datetime y m d h mi s us (defaultTz dc.g)) := by
+  have hb := decodeDatetimeBase_datetime dc.g hg y m d h mi s us hd hv
+  unfold decodeDatetime
+  cases hk : dc.kind
+  · simp [hb]
+  · simp [hb, decodeDatetimeOdl]
+  · have := hp hk
+    simp [hb, this]
+  · simp [hb, decodeDatetimeOdl]
+
+/-- **C14, date-times round-trip through the PVL and ISIS encoders** -/
+theorem C14_datetime_roundtrip_pvl (c : EncCfg) (hk : c.kind = .pvl ∨ c.kind = .isis)
+    (hg : DtTablesOK c.d.g = true) (y m d h mi s us : Nat) (hd : ValidDate y m d) (hv : ValidTime h mi s us)
+    (hp : c.d.kind = .pds → us % 1000 = 0) (tz : Option Int) (htz : tz = none ∨ tz = some 0) :
+    ∃ text, encodeValue c (.datetime y m d h mi s us tz) = .ok text ∧
+      decodeDatetime c.d text = .ok (.datetime y m d h mi s us (defaultTz c.d.g)) := by
+  refine ⟨dateT y m d (encodeTimeBase h mi s us), ?_, C14_datetime_decodes c.d hg y m d h mi s us hd hv hp⟩
+  rcases hk with hk | hk <;> rcases htz with rfl | rfl <;>
+    simp [encodeValue, encodeSimple, encodeTime, hk, encodeDate, dateT]
+
+/-- **C14, date-times with `Z`** are decoded to the written fields in UTC by each decoder class -/
+theorem C14_datetimeZ_decodes (dc : Dec) (hg : DtTablesOK dc.g = true) (y m d h mi s us : Nat)
+    (hd : ValidDate y m d) (hv : ValidTime h mi s us) (hp : dc.kind = .pds → us % 1000 = 0) :
+    decodeDatetime dc (dateT y m d (encodeTimeBase h mi s us ++ [90])) =
+      .ok (.datetime y m d h mi s us (some 0)) := by
+  have hb := decodeDatetimeBase_datetimeZ dc.g hg y m d h mi s us hd hv
+  unfold decodeDatetime
+  cases hk : dc.kind
+  · simp [hb]
+  · simp [hb, decodeDatetimeOdl]
+  · have := hp hk
+    simp [hb, this]
+  · simp [hb, decodeDatetimeOdl]
+
+/-- **C14, UTC date-times round-trip through the ODL encoder** -/
+theorem C14_datetime_roundtrip_odl_utc (c : EncCfg) (hk : c.kind = .odl) (hg : DtTablesOK c.d.g = true)
+    (y m d h mi s us : Nat) (hd : ValidDate y m d) (hv : ValidTime h mi s us)
+    (hp : c.d.kind = .pds → us % 1000 = 0) :
+    ∃ text, encodeValue c (.datetime y m d h mi s us (some 0)) = .ok text ∧
+      decodeDatetime c.d text = .ok (.datetime y m d h mi s us (some 0)) := by
+  refine ⟨dateT y m d (encodeTimeBase h mi s us ++ [90]), ?_,
+    C14_datetimeZ_decodes c.d hg y m d h mi s us hd hv hp⟩
+  simp [encodeValue, encodeSimple, encodeTime, hk, encodeDate, dateT]
 
 /-- leap day: 29 February exists exactly in leap years (non-vacuity of `ValidDate` at its edge) -/
 example : ValidDate 2000 2 29 ∧ ¬ ValidDate 1900 2 29 ∧ ValidDate 1 1 1 ∧ ValidDate 9999 12 31 := by
